@@ -535,6 +535,33 @@ def compare_links(cmpn, pcanon, ccanon, ctx):
                 cmpn.diffs.append(Diff('link', 'length field %s: %s' % (a.key or 'u%s' % a.w, verdict), a, b))
             continue
         where = a.key or 'u%s' % a.w
+        af = getattr(b, 'val_affine', None)
+        if la is not None and lb is None and af and len(af[1]) == 1:
+            # len(items) * k over an array whose item width only the parser states (enum coded items): the paired parser
+            # array supplies the width
+            (unit, ids), coeff = next(iter(af[1].items()))
+            if unit == 'count' and len(ids) == 1:
+                tgt = next((x for x in ccanon.flat if id(x) == ids[0]), None)
+                pa = c2p.get(id(tgt)) if tgt is not None else None
+                if pa is not None and pa.kind == 'array' and pa.body and pa.body[0].w == coeff and tgt.kind == 'array' and tgt.body and tgt.body[0].w in (None, coeff):
+                    lb = ('bytes', af[0], [tgt])
+        afa = getattr(a, 'val_affine', None)
+        if lb is not None and la is None and afa and len(afa[1]) == 1:
+            # the same with the roles swapped (code on side a, specification on side b)
+            (unit, ids), coeff = next(iter(afa[1].items()))
+            if unit == 'count' and len(ids) == 1:
+                tgt = next((x for x in pcanon.flat if id(x) == ids[0]), None)
+                pb = p2c.get(id(tgt)) if tgt is not None else None
+                if pb is not None and pb.kind == 'array' and pb.body and pb.body[0].w == coeff and tgt.kind == 'array' and tgt.body and tgt.body[0].w in (None, coeff):
+                    la = ('bytes', afa[0], [tgt])
+        if la is None and lb is not None and isinstance(a.val, int) and not isinstance(a.val, bool):
+            # a constant where the other side has a length: agrees when everything the length governs has a fixed size
+            ub, kb, tb = resolve(lb)
+            sizes = [fixed_size(x, ctx) for x in tb]
+            if ub == 'bytes' and all(z is not None for z in sizes):
+                if sum(sizes) + kb != a.val:
+                    cmpn.diffs.append(Diff('link', 'length field %s is the constant %d, the governed data has %d bytes' % (where, a.val, sum(sizes) + kb), a, b))
+                continue
         if la is None or lb is None:
             if la is not None and b.val is not None and not is_const(b.val):
                 verdict = tabulate_composer_link(a, b, la, p2c, reg)
@@ -543,7 +570,11 @@ def compare_links(cmpn, pcanon, ccanon, ctx):
                 elif verdict:
                     cmpn.diffs.append(Diff('link', 'length field %s: %s' % (where, verdict), a, b))
             elif lb is not None:
-                cmpn.unknown.append('length link of %s: parser use not analysable' % where)
+                verdict = tabulate_composer_link(b, a, lb, c2p, reg) if (a.val is not None and not is_const(a.val)) else None
+                if verdict is None:
+                    cmpn.unknown.append('length link of %s: parser use not analysable' % where)
+                elif verdict:
+                    cmpn.diffs.append(Diff('link', 'length field %s: %s' % (where, verdict.replace('the parser expects', 'the other side expects')), a, b))
             continue
         ua, ka, ta = resolve(la)
         ub, kb, tb = resolve(lb)
